@@ -368,21 +368,43 @@ theorem real_transports_give_up_by_8192 (w : CJ.WrapCls.Env) (hw : StationEnv w)
 /-! ## Tie to the source: what `handleNewTCPConn` does with the connection (regenerated on every run)
 
 `CJ/Gen/ConnCalls.lean` is extracted from the syntax tree of `cmd/application/conns.go` in the tree
-under check.  The model's action alphabet (arm the deadline, read, clear the deadline, hand the
+under check (every occurrence of the connection variables is classified).  The model's action alphabet (arm the deadline, read, clear the deadline, hand the
 connection to the transports / the proxy) is complete only if the function does nothing else with the
 connection; in particular there is no `Write` and no `Close` on any path. -/
 
-/-- The handler invokes nothing but `RemoteAddr`, `SetDeadline` and `Read` on the client connection,
-hands it only to `getRemoteAsIP`, `io.Copy(io.Discard, ·)` and the transports' `WrapConnection`, touches
-the wrapped connection only to clear the deadline and to pass it to `Proxy` (and a log line), keeps no
-alias of either and starts no goroutine. -/
+/-- The handler invokes nothing but `RemoteAddr`, `SetDeadline` and `Read` on the client connection (found
+by the type of the parameter; every copy of it is followed), hands it only to `getRemoteAsIP`, to
+`io.Copy` **as the source** (argument 1: `io.Copy(io.Discard, conn)` reads; as argument 0 it would write
+to the peer) and to the transports' `WrapConnection`, touches the wrapped connection only to pass it to
+`Proxy` (and to a log line's `%T`), and there is no other use of either: no copy into another variable,
+no type assertion or type switch (behind which `*net.TCPConn`-only calls such as `CloseWrite` /
+`SetLinger` could hide), no address-of, literal, closure capture, `defer` or goroutine.  The extractor
+does see the calls the model relies on (`Read`, `SetDeadline` are present). -/
 theorem conn_calls_ok :
     (∀ m ∈ CJ.Gen.ConnCalls.clientConnMethods, m ∈ ["Read", "RemoteAddr", "SetDeadline"]) ∧
-    (∀ f ∈ CJ.Gen.ConnCalls.clientConnPassedTo, f ∈ ["getRemoteAsIP", "io.Copy", "t.WrapConnection"]) ∧
+    (∀ f ∈ CJ.Gen.ConnCalls.clientConnPassedTo, f ∈ ["getRemoteAsIP#0", "io.Copy#1", "t.WrapConnection#1"]) ∧
     (∀ m ∈ CJ.Gen.ConnCalls.wrappedMethods, m ∈ ["SetDeadline"]) ∧
-    (∀ f ∈ CJ.Gen.ConnCalls.wrappedPassedTo, f ∈ ["cj.Proxy", "logger.Errorf"]) ∧
+    (∀ f ∈ CJ.Gen.ConnCalls.wrappedPassedTo, f ∈ ["cj.Proxy#1", "logger.Errorf#1"]) ∧
     CJ.Gen.ConnCalls.aliases = [] ∧
-    "Write" ∉ CJ.Gen.ConnCalls.clientConnMethods ∧ "Close" ∉ CJ.Gen.ConnCalls.clientConnMethods := by
+    "Write" ∉ CJ.Gen.ConnCalls.clientConnMethods ∧ "Close" ∉ CJ.Gen.ConnCalls.clientConnMethods ∧
+    "Read" ∈ CJ.Gen.ConnCalls.clientConnMethods ∧ "SetDeadline" ∈ CJ.Gen.ConnCalls.clientConnMethods ∧
+    "io.Copy#1" ∈ CJ.Gen.ConnCalls.clientConnPassedTo ∧ "cj.Proxy#1" ∈ CJ.Gen.ConnCalls.wrappedPassedTo := by
+  decide
+
+/-- `handleNewConn` — the goroutine that owns the accepted `*net.TCPConn` and calls `handleNewTCPConn` —
+does nothing with the connection but: defer its `Close` as the very first statement (so that it runs
+when, and only when, the handler has returned), duplicate the descriptor (`File`) to read the original
+destination and restore non-blocking mode, and hand it to `handleNewTCPConn`.  No `Write`, `SetLinger`,
+`CloseWrite`, early `Close`, no other use; on the duplicate only `Fd` and `Close`; the only direct system
+call is `SetNonblock`. -/
+theorem new_conn_calls_ok :
+    (∀ m ∈ CJ.Gen.ConnCalls.newConnMethods, m ∈ ["File"]) ∧
+    CJ.Gen.ConnCalls.newConnDeferred = ["Close@0"] ∧
+    CJ.Gen.ConnCalls.newConnPassedTo = ["cm.handleNewTCPConn#1"] ∧
+    (∀ m ∈ CJ.Gen.ConnCalls.newConnFdMethods, m ∈ ["Close", "Fd"]) ∧
+    (∀ f ∈ CJ.Gen.ConnCalls.newConnFdPassedTo, f ∈ ["getOriginalDst#0", "syscall.SetNonblock#0"]) ∧
+    (∀ f ∈ CJ.Gen.ConnCalls.newConnSyscalls, f ∈ ["SetNonblock"]) ∧
+    CJ.Gen.ConnCalls.newConnOther = [] := by
   decide
 
 /-! ## Non-vacuity: concrete classifiers, a probe that comes close, and its trace -/
